@@ -113,6 +113,23 @@ def accesses(fi):
             out.append(Acc(d, "iter", None, p, cnode))
         else:
             out.append(Acc(d, "whole-load", None, n, cnode))
+    # a local bound to self._as_list[K] is an alias of that list: mutations through it are mutations of _as_list[K]
+    aliases = {}
+    for a in out:
+        if a.d == LIST and a.kind == "load":
+            st = pm.get(a.node)
+            if isinstance(st, ast.Assign) and st.value is a.node and len(st.targets) == 1 and isinstance(st.targets[0], ast.Name):
+                aliases[st.targets[0].id] = a
+    if aliases:
+        for cnode, n in fi.cfg.find(lambda x: isinstance(x, ast.Name) and x.id in aliases and isinstance(x.ctx, ast.Load)):
+            src = aliases[n.id]
+            p = pm.get(n)
+            if isinstance(p, ast.Subscript) and p.value is n and isinstance(p.ctx, (ast.Store, ast.Del)):
+                out.append(Acc(LIST, "mut-aug", src.key, n, cnode))
+            elif isinstance(p, ast.Attribute) and p.value is n and isinstance(pm.get(p), ast.Call) and pm[p].func is p and p.attr in ("append", "extend", "insert", "remove", "pop", "clear", "sort", "reverse"):
+                out.append(Acc(LIST, "mut-append", src.key, n, cnode))
+            elif isinstance(p, (ast.Return, ast.Call, ast.Yield)) and not (isinstance(p, ast.Call) and q.call_attr(p) in ("len", "join", "iter", "list", "tuple", "bool")):
+                pass
     return out
 
 
@@ -522,10 +539,10 @@ def rule_continuation(ck, methods, all_acc):
     muts = [a for a in all_acc[add.qualname] if a.d == LIST and a.kind == "mut-append"]
     sets = [c for c in q.calls(add.node) if False]
     # parse_line(): continuation extends the LAST value of the LAST key
-    conts = [a for a in all_acc[pl.qualname] if a.d == LIST and a.kind == "mut-aug"]
-    ck.floor("C06.continuation", len(conts), 1, "continuation-line concatenations in parse_line")
-    pfacts = must_facts(pl.cfg)
-    for a in conts:
+    conts = [(m_, a) for m_ in methods for a in all_acc[m_.qualname] if a.d == LIST and a.kind == "mut-aug"]
+    ck.floor("C06.continuation", len(conts), 1, "continuation-line concatenations in HTTPHeaders")
+    for pl, a in conts:
+        pfacts = must_facts(pl.cfg)
         n += 1
         ck.ob("C06.continuation", pl, a.cfgnode.ast, q.dotted(a.key) == "self._last_key", "a continuation line extends the values of self._last_key")
         # innermost index: [-1]
@@ -539,13 +556,29 @@ def rule_continuation(ck, methods, all_acc):
         n += 1
         ck.ob("C06.continuation", pl, outer if outer is not None else a.node, iv == -1, "a continuation line extends the most recent value (index -1) of that name")
         n += 1
-        ck.ob("C06.continuation", pl, a.cfgnode.ast, canon_fact(ast.parse("self._last_key is None", mode="eval").body, False) in pfacts[a.cfgnode.id] or _edge_guarded(pl, a.cfgnode, "self._last_key is None", False),
+        notnone = canon_fact(ast.parse("self._last_key is None", mode="eval").body, False)
+        guarded = notnone in pfacts[a.cfgnode.id] or _edge_guarded(pl, a.cfgnode, "self._last_key is None", False)
+        if not guarded and pl.name != "parse_line":
+            # the concatenation lives in a helper: the guard may sit at its call sites
+            sites_ = [(m2, nd2) for m2 in methods for nd2, c2 in m2.cfg.find(lambda x: isinstance(x, ast.Call) and q.dotted(x.func) == "self." + pl.name)]
+            if sites_ and all(notnone in must_facts(m2.cfg)[nd2.id] or _edge_guarded(m2, nd2, "self._last_key is None", False) for m2, nd2 in sites_):
+                guarded = True
+            elif not sites_:
+                raise AnalysisError("C06.continuation: %s concatenates a continuation but has no call site in HTTPHeaders" % pl.qualname)
+        ck.ob("C06.continuation", pl, a.cfgnode.ast, guarded,
               "the concatenation is only reached when self._last_key is not None (a leading continuation is rejected)")
         st = a.cfgnode.ast
         n += 1
-        ck.ob("C06.continuation", pl, st, isinstance(st, ast.AugAssign) and isinstance(st.op, ast.Add), "the continuation text is appended (+=) to the existing value")
-        if isinstance(st, ast.AugAssign):
-            v = st.value
+        appended = None
+        if isinstance(st, ast.AugAssign) and isinstance(st.op, ast.Add):
+            appended = st.value
+        elif isinstance(st, ast.Assign) and isinstance(st.value, ast.BinOp) and isinstance(st.value.op, ast.Add) and q.unparse(st.value.left) == q.unparse(st.targets[0]):
+            appended = st.value.right
+        elif not isinstance(st, (ast.AugAssign, ast.Assign)):
+            raise AnalysisError("C06.continuation: unrecognised update of the last value in %s" % pl.qualname)
+        ck.ob("C06.continuation", pl, st, appended is not None, "the continuation text is appended (+= / x = x + text) to the existing value")
+        if appended is not None:
+            v = appended
             if isinstance(v, ast.Name):
                 bs = [x.value for x in q.walk_body(pl.node) if isinstance(x, ast.Assign) and v.id in q.assigned_paths(x)]
                 v = bs[0] if len(bs) == 1 else None
@@ -592,32 +625,42 @@ def rule_value_exact(ck, methods, all_acc):
                 check_exact(ck, "C06.value-exact", fi, st.value, [vparam], "value stored through self[...]", site=st)
                 n += 1
     ck.floor("C06.value-exact", n, 3, "value stores in add/__setitem__")
-    # serialisation: one line per (name, value) pair of get_all(), not per combined value
+    # serialisation: one line per (name, value) pair of get_all(), not per combined value (loop or comprehension form)
+    def generators(fn):
+        out = [(l.target, l.iter, l) for l in q.walk_body(fn) if isinstance(l, ast.For)]
+        out += [(g.target, g.iter, g) for g in ast.walk(fn) if isinstance(g, ast.comprehension)]
+        return out
+
     s_ = byname["__str__"]
-    loops = [l for l in q.walk_body(s_.node) if isinstance(l, ast.For)]
-    ck.need(len(loops) >= 1, "HTTPHeaders.__str__: no loop (unknown idiom)")
-    for l in loops:
-        it = l.iter
+    gens = generators(s_.node)
+    if not gens:
+        raise AnalysisError("HTTPHeaders.__str__: no loop/comprehension (unknown idiom)")
+    for tgt, it, l in gens:
+        it = resolve(s_, it)
         ok = isinstance(it, ast.Call) and q.dotted(it.func) == "self.get_all"
-        ck.ob("C06.serialize", s_, l, ok, "__str__ emits one line per stored value (iterates self.get_all(), not the comma-joined items())")
-        tn = [e.id for e in l.target.elts] if isinstance(l.target, ast.Tuple) else []
-        fs = [x for x in ast.walk(l) if isinstance(x, ast.JoinedStr)]
+        if not ok and not (isinstance(it, ast.Call) and q.dotted(it.func) in ("self.items", "self._as_list.items", "self.values", "self.keys")) and q.dotted(it) != "self":
+            continue   # some other loop (e.g. over the lines built so far)
+        ck.ob("C06.serialize", s_, l if isinstance(l, ast.stmt) else it, ok, "__str__ emits one line per stored value (iterates self.get_all(), not the comma-joined items())")
+        tn = [e.id for e in tgt.elts] if isinstance(tgt, ast.Tuple) else []
+        fs = [x for x in ast.walk(s_.node) if isinstance(x, ast.JoinedStr)]
+        if not fs:
+            raise AnalysisError("HTTPHeaders.__str__: line template not recognised")
         for f in fs:
             holes = [q.dotted(v.value) for v in f.values if isinstance(v, ast.FormattedValue)]
             consts = [v.value for v in f.values if isinstance(v, ast.Constant)]
             ck.ob("C06.serialize", s_, f, holes == tn and consts[:1] == [": "] and consts[-1:] == ["\n"] and len(consts) == 2, "each line is '<name>: <value>\\n' built from the pair unchanged")
     ga = byname["get_all"]
-    ys = [y for y in q.walk_body(ga.node) if isinstance(y, ast.Yield)]
-    ck.need(ys, "get_all does not yield")
-    pmg = q.parent_map(ga.node)
-    for y in ys:
-        fors = [a for a in q.ancestors(pmg, y) if isinstance(a, ast.For)]
-        ok = len(fors) == 2 and isinstance(y.value, ast.Tuple) and len(y.value.elts) == 2
-        if ok:
-            inner, outer = fors[0], fors[1]
-            oit = outer.iter
-            ok = isinstance(oit, ast.Call) and q.dotted(oit.func) == LIST + ".items" and isinstance(outer.target, ast.Tuple) and q.dotted(inner.iter) == outer.target.elts[1].id \
-                and [q.dotted(e) for e in y.value.elts] == [outer.target.elts[0].id, q.dotted(inner.target)]
+    ggens = generators(ga.node)
+    outer = [(t, it, l) for t, it, l in ggens if isinstance(it, ast.Call) and q.dotted(it.func) == LIST + ".items" and isinstance(t, ast.Tuple) and len(t.elts) == 2]
+    if len(outer) != 1:
+        raise AnalysisError("HTTPHeaders.get_all: iteration over %s.items() not found (unknown idiom)" % LIST)
+    kname, vsname = [e.id for e in outer[0][0].elts]
+    inner = [(t, it, l) for t, it, l in ggens if q.dotted(it) == vsname and isinstance(t, ast.Name)]
+    produced = [y.value for y in q.walk_body(ga.node) if isinstance(y, ast.Yield) and y.value is not None] + [g.elt for g in ast.walk(ga.node) if isinstance(g, (ast.GeneratorExp, ast.ListComp))]
+    if not produced:
+        raise AnalysisError("HTTPHeaders.get_all: produced pairs not recognised")
+    for y in produced:
+        ok = len(inner) == 1 and isinstance(y, ast.Tuple) and len(y.elts) == 2 and [q.dotted(e) for e in y.elts] == [kname, inner[0][0].id]
         ck.ob("C06.serialize", ga, y, bool(ok), "get_all yields (name, value) for every value of every name, in list order")
 
 
